@@ -25,6 +25,17 @@ Confirmed defects of the unchanged tree are steered around BY CONSTRUCTION while
 ``AVOID`` switch is True (the number of steered draws is reported through ``avoided:<slug>`` labels);
 their minimal histories live in replays/C18/known_<slug>.json and are replayed by every run.  After a
 repair set the switch to False (or VERIF_C18_NOAVOID=slug1,slug2 / =all) and the class is searched again.
+
+  switch               defect                                         replays/C18/
+  r1_out_of_range      D1 IndexError for scalar-valued functions      known_r1_out_of_range_{eval,deriv}.json
+  r1_nan_drop          D2 one NaN drops a scalar-valued table         known_r1_nan_drop.json
+  deriv_mixed          D3 derivative passes the full x                known_deriv_{mixed,2d_outside}.json
+  deriv_near_edge      D4 stencil points inside the table unset       known_deriv_near_edge.json
+  extend_grid          D5 np.arange blocks not robust to rounding     known_extend_{overrun_*,grid_*}.json
+  adaptive_degenerate  D6 update from a single pending point          known_adaptive_degenerate.json
+
+The steering predicates mirror the arithmetic of the unchanged tree (np.arange lengths, the pending
+list); they are used to choose inputs and to name the class of a failure, never to decide a verdict.
 """
 from __future__ import annotations
 
@@ -52,8 +63,8 @@ RULE = (
     "table-changing step; distinct by canonical JSON of the whole history."
 )
 BUDGET = {
-    "quick": {"cases": 2400, "steps": 12, "shrink": True, "time_cap_s": 300},
-    "thorough": {"cases": 40000, "steps": 30, "shrink": True, "time_cap_s": 2400},
+    "quick": {"cases": 4000, "steps": 12, "shrink": True, "time_cap_s": 300, "shrink_cap_s": 60},
+    "thorough": {"cases": 30000, "steps": 30, "shrink": True, "time_cap_s": 2400},
 }
 
 # ---------------------------------------------------------------------------
@@ -93,17 +104,19 @@ TOLERANCES = {
     "table_values_rel": 1e-12,           # tabulated values vs f at abscissae
     "spline_bound_K": 10 * 5.0 / 384.0,  # |S-f| <= K h_max^4 max|f''''|  (+ rounding floor)
     "spline_floor_rel": 1e-11,           # rounding floor of the bound (relative to 1+max|values|)
-    "spline_floor_ratio2": 4.0,          # ... or 4 eps (h_max/h_min)^2: not-a-knot end pieces extrapolate
-                                         #     from clustered knots (measured 9e4 eps at ratio 1.2e3)
-    "accuracy_mesh_ratio_cap": 1e4,      # beyond this mesh ratio agreement with f is not asserted (ill-conditioned)
+    "spline_floor_ratio3": 4.0,          # ... or 4 eps (h_max/h_min)^3: a not-a-knot end piece is the cubic through
+                                         #     a cluster of knots continued over the long interval (Lebesgue
+                                         #     constant ~ ratio^3; measured up to 9e4 eps at ratio 1.2e3)
+    "accuracy_mesh_ratio_cap": 1e3,      # beyond this mesh ratio agreement with f / the round trip is not asserted
     "min_gap_rel": 1e-9,                 # abscissae closer than this (rel. 1+|x|) are near-duplicates unless requested
     "requested_gap_rel": 1e-7,           # a requested block spacing below this excuses near-duplicates
     "fd_factor": 10.0,                   # outside derivative: factor on (rounding/dx^n + truncation dx^4)
     "fd_eval_eps": 1e-15,                # relative accuracy assumed for one evaluation of g
     "near_edge_halfwidth_dx": 2.5,       # an outside entry closer than this many dx to the edge is 'near'
-    "roundtrip_rel": 1e-13,              # %.15g round trip, relative to (max|v| + max|x| max|slope|) * h_max/h_min
+    "roundtrip_rel": 1e-13,              # %.15g round trip, relative to (max|v| + max|x| max|slope|) * (h_max/h_min)^3
     "range_reach_rel": 1e-9,             # extension reaches newMax up to arange rounding
 }
+TOLERANCES["avoid_switches"] = {k: bool(v) for k, v in AVOID.items()}  # recorded in evidence
 ASSUMPTIONS = [
     "_functionImplementation returns x.shape (R=1) or x.shape+(R,) (R>1), NaN in one component below a "
     "threshold - the documented way to mark invalid input.",
@@ -623,10 +636,12 @@ class Runner:
             ratio = np.max(err / bound) if err.size else 0.0
             self.track("table_accuracy_err_over_bound", ratio)
             if not np.all(err <= bound):
-                i = int(np.argmax((err / bound).reshape(len(mid), -1).max(axis=1)))
+                w = np.unravel_index(int(np.argmax(err / bound)), err.shape)
+                bw = float(np.broadcast_to(bound, err.shape)[w])
                 self.fail("table-accuracy", f"after={op} R={self.Rc}",
-                          f"spline differs from f by {float(np.max(err)):.3e} at x={mid[i]!r} "
-                          f"(bound {np.max(bound):.3e}; n={t.n}, h_max={t.hmax:.3g}, h_min={t.hmin:.3g})")
+                          f"spline differs from f by {float(err[w]):.3e} at x={float(mid[w[0]])!r} (bound {bw:.3e}, "
+                          f"component {self.init['comps'][w[-1]] if self.R > 1 else self.init['comps'][0]}; "
+                          f"n={t.n}, h_max={t.hmax:.3g}, h_min={t.hmin:.3g})")
 
     def _spline_bound(self, t):
         """K h_max^4 max|f''''| + rounding floor, per component (shape () or (R,))."""
@@ -635,7 +650,7 @@ class Runner:
             self.lab("accuracy-skipped:mesh-ratio")
             return None
         m4 = np.array([comp_bound(c, 4, t.rmin, t.rmax) for c in self.init["comps"]])
-        floor = max(TOLERANCES["spline_floor_rel"], TOLERANCES["spline_floor_ratio2"] * EPS * ratio ** 2)
+        floor = max(TOLERANCES["spline_floor_rel"], TOLERANCES["spline_floor_ratio3"] * EPS * ratio ** 3)
         b = TOLERANCES["spline_bound_K"] * t.hmax ** 4 * m4 + floor * t.scale
         return float(b[0]) if self.R == 1 else b
 
@@ -928,9 +943,12 @@ class Runner:
             err = np.abs(got[m] - f_exact(self.init, xa[m]))
             self.track("eval_accuracy_err_over_bound", np.max(err / bound))
             if not np.all(err <= bound):
+                w = np.unravel_index(int(np.argmax(err / bound)), err.shape)
+                bw = float(np.broadcast_to(bound, err.shape)[w])
                 self.fail("eval-accuracy", f"R={self.Rc}",
-                          f"interpolated value differs from f by {float(np.max(err)):.3e} "
-                          f"(bound {np.max(bound):.3e})")
+                          f"interpolated value differs from f by {float(err[w]):.3e} (bound {bw:.3e}, component "
+                          f"{self.init['comps'][w[-1]] if self.R > 1 else self.init['comps'][0]}; n={tab0.n}, "
+                          f"h_max={tab0.hmax:.3g}, h_min={tab0.hmin:.3g})")
 
     # -- derivative -------------------------------------------------------------------
     def op_derivative(self, s):
@@ -1040,7 +1058,7 @@ class Runner:
             if sub == "out-of-range-value":
                 side, mode = ("lower", self.lo) if below[idx] else ("upper", self.hi)
                 nr = "near" if near[idx] else "far"
-                cls = f"call=derivative R={self.Rc} side={side} mode={mode} dist={nr}"
+                cls = f"call=derivative R={self.Rc} pair={pair} side={side} mode={mode} dist={nr}"
             else:
                 cls = f"call=derivative R={self.Rc} order={n}"
             self.fail(sub, cls,
@@ -1280,7 +1298,11 @@ class Runner:
         slope = np.max(np.abs(old.S(old.pts, 1)))
         sc = float(np.max(np.abs(old.vals)) + max(abs(old.rmin), abs(old.rmax)) * slope) + 1e-300
         err = float(np.max(np.abs(y1 - y2))) if y1.size else 0.0
-        sc *= max(1.0, old.hmax / old.hmin)  # knots move by 1e-15: sensitivity grows with the mesh ratio
+        ratio = old.hmax / old.hmin
+        if ratio > TOLERANCES["accuracy_mesh_ratio_cap"]:
+            self.lab("roundtrip:values-skipped-mesh-ratio")
+            return
+        sc *= max(1.0, ratio) ** 3  # knots and values move by 1e-15; amplification as for spline_floor_ratio3
         self.track("roundtrip_err_over_tol", err / (rel * sc))
         if y1.shape != y2.shape or err > rel * sc:
             self.fail("roundtrip", f"R={self.Rc} values",
